@@ -384,6 +384,14 @@ def repo_code_objects(extra=()):
             code = getattr(fn, "__code__", None)
             if code is not None:
                 out.append(code)
+                # nested code objects too (generator expressions, comprehensions, lambdas): a preemption between two steps of
+                # `sum(... for ... in self._dict.values())` is as real as one between two statements
+                stack = [code]
+                while stack:
+                    for const in stack.pop().co_consts:
+                        if hasattr(const, "co_code"):
+                            out.append(const)
+                            stack.append(const)
     return out + list(extra)
 
 
